@@ -1,6 +1,6 @@
 (* C09 -- environment variables round-trip exactly (subshell isolation is decided end-to-end, see DESIGN.md).
    Property theorems only; proofs are in ProofC09.v. *)
-From TV Require Import Base Utf8 Utf8Lemmas Regex Channel ChannelLemmas Hush Session ProofSession ProofC19 Sh ProofC01 ProofC09 ProofEnvUtf8.
+From TV Require Import Base Utf8 Utf8Lemmas Regex Channel ChannelLemmas Hush Session ProofSession ProofC19 Sh ProofC01 ProofC09 ProofEnvUtf8 Subshell.
 
 (* (1) the line env(var, value) sends is read by the shell as  export NAME=VALUE  with exactly the value:
        for all names and values without NUL (leading dashes, backslashes, quotes, $, globs, newlines, blanks ...) *)
@@ -62,3 +62,18 @@ Theorem C09_env_get_exact_any_text :
   exists c', lx_env_get var (st1 :: st2 :: sts) c = (X0Ok v, c', sts) /\ insync c'.
 Proof. exact env_get_exact_utf8. Qed.
 Print Assumptions C09_env_get_exact_any_text.
+
+(* (5) subshell isolation in the abstract model of nested shells (Subshell.v; the model's final states are compared
+       with the real bash and dash on every generated program): whatever the body does -- sets, cd, options, further
+       subshells to any depth -- and whether it returns or raises at any point, the shell the context was entered
+       from, and every shell around it, is exactly as before; an uncaught exception still reaches the caller *)
+Theorem C09_subshell_isolates :
+  forall body catch st, st <> [] -> fst (run_op (SSub body catch) st) = st.
+Proof. exact subshell_isolates. Qed.
+Print Assumptions C09_subshell_isolates.
+
+Theorem C09_subshell_exception_propagates :
+  forall body st f rest, st = f :: rest ->
+  snd (run_op (SSub body false) st) = snd (run_list body (mkF (f_env f) (f_cwd f) [] :: f :: rest)).
+Proof. exact subshell_propagates. Qed.
+Print Assumptions C09_subshell_exception_propagates.
